@@ -328,7 +328,22 @@ def make_core(env):
         tells it the ProxyCall(on_event, event, kwargs); recorded synchronously (no thread)."""
 
         def tell(self, message):
-            env.events.append((message.args[0], dict(message.kwargs)))
+            kw = dict(message.kwargs)
+            # a listener that looks at the core while it receives the event (same thread): what the
+            # core reports at that moment
+            live = getattr(env, "live_core", None)
+            if live is not None:
+                try:
+                    name = message.args[0]
+                    if name == "playback_state_changed":
+                        kw["_seen_state"] = str(live.playback.get_state())
+                    elif name == "track_playback_started":
+                        kw["_seen_current"] = live.playback.get_current_tlid()
+                    elif name == "tracklist_changed":
+                        kw["_seen_version"] = live.tracklist.get_version()
+                except Exception:  # noqa: BLE001
+                    pass
+            env.events.append((message.args[0], kw))
 
     _ref = ListenerRef()
 
@@ -343,7 +358,9 @@ def make_core(env):
     config = {"core": {"max_tracklist_length": env.max_len, "restore_state": True,
                        "data_dir": env.data_dir if hasattr(env, "data_dir") else "/nonexistent"},
               "audio": {"mixer_volume": getattr(env, "cfg_volume", None)}}
+    env.live_core = None
     core = Core(config=config, mixer=MixerProxy(), backends=[BackendProxy()], audio=env.audio)
+    env.live_core = core
 
     def restore():
         import random as _r
